@@ -107,8 +107,16 @@ type ctorResult struct {
 
 // runConstructor interprets a constructor and returns its success paths (error result nil) and the number of
 // failing paths.
+// c14CtorSyms: symbol names for the constructor's parameters by position (the names of the reference table), so that
+// the comparison does not depend on how the constructor names its parameters. Set by the caller; nil = source names.
+var c14CtorSyms []string
+
+// c14MethodSyms: positional symbol names for the parameters of the interpreted methods.
+var c14MethodSyms = map[string][]string{"LogPdf": {"r", "x"}, "Pdf": {"r", "x"}, "Cdf": {"r", "x"}, "LogCdf": {"r", "x"},
+	"SetParameters": {"parameters"}, "ImportConfig": {"config", "t"}}
+
 func runConstructor(p *packages.Package, d *declIndex, fd *ast.FuncDecl) (ok []ctorResult, nfail int, und *vn.Undecided) {
-	cfg := vn.Config{Pkg: p, TypeName: "Real64", Spec: distSpec, InlineOps: inlineOps, Decl: d.find, ParamNames: true, MaxDepth: 6}
+	cfg := vn.Config{Pkg: p, TypeName: "Real64", Spec: distSpec, InlineOps: inlineOps, Decl: d.find, ParamNames: true, MaxDepth: 6, ParamSyms: c14CtorSyms}
 	paths, u := vn.Run(cfg, fd)
 	if u != nil {
 		return nil, 0, u
@@ -162,7 +170,7 @@ func runMethod(p *packages.Package, d *declIndex, fd *ast.FuncDecl, obj *vn.Stru
 	// every path needs a fresh copy of the object: run path by path through vn.Run with a copying hook is not
 	// available, so the object is copied once per Run and Run re-binds it on every path enumeration through RecvStruct.
 	cfg := vn.Config{Pkg: p, TypeName: "Real64", Spec: distSpec, InlineOps: inlineOps, Decl: d.find, ParamNames: true, MaxDepth: 6,
-		RecvStruct: obj, RecvFresh: true, IntSyms: c14IntSyms}
+		RecvStruct: obj, RecvFresh: true, IntSyms: c14IntSyms, ParamSyms: c14MethodSyms[fd.Name.Name]}
 	paths, u := vn.Run(cfg, fd)
 	if u != nil {
 		return nil, u
@@ -484,7 +492,9 @@ func checkIid(c *core.Ctx, ps *packages.Package, d *declIndex) {
 		c.Unknown("C14.R6", cons, "constructor and LogPdf found", 0, "NewScalarIid, LogPdf or the inner family not found")
 		return
 	}
+	c14CtorSyms = normal.params
 	inner, _, und := runConstructor(ps, d, nctor)
+	c14CtorSyms = nil
 	if und != nil || len(inner) == 0 {
 		c.Unknown("C14.R6", cons, "inner family interpreted", nctor.Pos(), "constructor of the inner family could not be interpreted")
 		return
@@ -576,7 +586,9 @@ func checkWrappersFor(c *core.Ctx, p *packages.Package, d *declIndex, innerT str
 		c.Unknown("C14.R6", "statistics/scalarDistribution wrappers", "inner family available", 0, "normal distribution not found")
 		return
 	}
+	c14CtorSyms = normal.params
 	inner, _, und := runConstructor(p, d, nctor)
+	c14CtorSyms = nil
 	if und != nil || len(inner) == 0 {
 		c.Unknown("C14.R6", "statistics/scalarDistribution wrappers", "inner family interpreted", nctor.Pos(), "constructor of the inner family could not be interpreted")
 		return
@@ -709,11 +721,14 @@ func checkDistEntry(c *core.Ctx, p *packages.Package, d *declIndex, e distEntry)
 			have = append(have, n.Name)
 		}
 	}
-	if strings.Join(have, ",") != strings.Join(e.params, ",") {
-		c.Unknown("C14.R1", cons, "constructor parameters are "+strings.Join(e.params, ","), ctor.Pos(), "the constructor's parameters are now ("+strings.Join(have, ",")+"): the reference formula has to be re-keyed")
+	if len(have) != len(e.params) {
+		c.Unknown("C14.R1", cons, fmt.Sprintf("constructor has %d parameters", len(e.params)), ctor.Pos(), "the constructor's parameters are now ("+strings.Join(have, ",")+"): the reference formula has to be re-keyed")
 		return
 	}
+	// the table's names are bound by position: a renamed constructor parameter changes nothing
+	c14CtorSyms = e.params
 	oks, _, und := runConstructor(p, d, ctor)
+	c14CtorSyms = nil
 	if und != nil {
 		c.Unknown("C14.R1", cons, "constructor interpreted", und.Pos, "constructor left the interpreter's idiom set: "+und.Msg)
 		return
